@@ -278,8 +278,7 @@ func c05Blkid(b *c05Block) arvados.SizedDigest {
 // addBlock feeds the block's state into the BlockStateMap the way
 // GetCurrentState does: every mount (that survived cleanupMounts) of a device
 // holding a copy reports the copy with the device's mtime.
-func (w *c05World) addBlock(bsm *BlockStateMap, b *c05Block, pdh string) {
-	blkid := c05Blkid(b)
+func (w *c05World) addBlock(bsm *BlockStateMap, b *c05Block, blkid arvados.SizedDigest, pdh string) {
 	wants := func() {
 		for _, wt := range b.Wants {
 			bsm.IncreaseDesired(pdh, wt.Classes, wt.N, []arvados.SizedDigest{blkid})
@@ -335,7 +334,7 @@ type c05Out struct {
 
 func (w *c05World) resetChangeSets() {
 	for _, srv := range w.srvs {
-		srv.ChangeSet = &ChangeSet{}
+		srv.ChangeSet.Pulls, srv.ChangeSet.Trashes = nil, nil
 	}
 }
 
@@ -376,7 +375,7 @@ func (w *c05World) collect(blkid arvados.SizedDigest, lost bool) (c05Out, error)
 func (w *c05World) balanceDirect(b *c05Block) (c05Out, error) {
 	blkid := c05Blkid(b)
 	bsm := NewBlockStateMap()
-	w.addBlock(bsm, b, "")
+	w.addBlock(bsm, b, blkid, "")
 	blk := bsm.entries[blkid]
 	if blk == nil {
 		return c05Out{Absent: true}, nil
@@ -397,7 +396,7 @@ func (w *c05World) balanceViaCCS(blocks []c05Block) ([]c05Out, error) {
 			return nil, fmt.Errorf("duplicate block hash in case")
 		}
 		seen[blocks[i].Hash] = true
-		w.addBlock(bsm, &blocks[i], fmt.Sprintf("pdh%d+1", i))
+		w.addBlock(bsm, &blocks[i], c05Blkid(&blocks[i]), fmt.Sprintf("pdh%d+1", i))
 	}
 	w.resetChangeSets()
 	var lostBuf bytes.Buffer
